@@ -53,10 +53,16 @@ def gen_case(rng, tier, index):
     if index % 5 == 4:
         # live-build-id scenario: git source, prediction by `git ls-remote`, upstream may move
         # right after the prediction (wrong prediction -> Bob must restart)
-        return {"live": True, "move": rng.choice(["after-lsremote", "after-lsremote", "before", "never"]),
-                "drop": rng.choice([["lib", "root"], ["lib"], ["root"], []]), "jobs": rng.choice([1, 2, 4]),
-                "seed": rng.getrandbits(32), "mode": rng.choice(["yes", "yes", "deps", "forced-fallback"]),
-                "salt": "%x" % rng.getrandbits(20)}
+        c = {"live": True, "move": rng.choice(["after-lsremote", "after-lsremote", "before", "never"]),
+             "drop": rng.choice([["lib", "root"], ["lib"], ["root"], []]), "jobs": rng.choice([1, 2, 4]),
+             "seed": rng.getrandbits(32), "mode": rng.choice(["yes", "yes", "deps", "forced-fallback"]),
+             "salt": "%x" % rng.getrandbits(20)}
+        if rng.random() < 0.35:
+            # the archive already holds everything for the commit the upstream moves to: after the
+            # restart the downloader must take it from there
+            c.update({"prefilled": True, "move": "after-lsremote", "mode": "yes",
+                      "drop": rng.choice([["lib", "root"], ["lib", "root"], ["lib", "mid", "root"]])})
+        return c
     feats = {"checkoutscript"} | set(rng.sample(["import", "vars", "tools", "provideVars", "diamond", "fingerprint", "fingerprint",
                                                  "nonreloc", "depenv", "classes"], rng.randint(2, 6)))
     model = projgen.gen_valid_project(rng, nmin=3, nmax=6, features=feats)
@@ -94,6 +100,13 @@ def gen_case(rng, tier, index):
                           "pick": rng.getrandbits(16), "pos": rng.random()}
     return case
 
+def directed_cases(tier):
+    """Wrong live-build-id prediction with an archive that already holds everything for the
+    commit that is really checked out: after the restart nothing may be built."""
+    return [{"live": True, "prefilled": True, "move": "after-lsremote", "mode": "yes", "drop": d, "jobs": j,
+             "seed": 7 + j, "salt": "d%d" % j}
+            for d, j in ((["lib", "root"], 1), (["lib", "mid", "root"], 4))]
+
 def all_reloc(model):
     """A non-relocatable package tags its Build-Id (and that of everything depending
     on it) with its absolute path: such artifacts are legitimately not shared between
@@ -108,6 +121,10 @@ def _upstream_moves(arg):
     env = dict(loopsim.BASE_ENV)
     env["GIT_AUTHOR_DATE"] = env["GIT_COMMITTER_DATE"] = "2020-02-02T00:00:00Z"
     w = arg["work"]
+    if arg.get("push_existing"):
+        subprocess.run(["git", "push", "-q", "origin", "%s:master" % arg["push_existing"]], cwd=w, env=env,
+                       stdin=subprocess.DEVNULL, stdout=subprocess.DEVNULL, stderr=subprocess.DEVNULL)
+        return
     with open(os.path.join(w, "a.txt"), "w") as f:
         f.write("moved-%s\n" % arg["salt"])
     for cmd in (["git", "commit", "-q", "-am", "moved"], ["git", "push", "-q", "origin", "master"]):
@@ -152,8 +169,23 @@ def _run_live(case, top, stats, log):
     r = buildsim.bob(pa, ["dev", "--upload", "--download", "no", "root"], {"sched_seed": 1})
     if r.rc != 0:
         raise common.HarnessError("uploader build failed: " + r.output[-400:])
+    old_arts = set(_artifacts(arch))
+    arg = {"work": work, "salt": case["salt"]}
+    if case.get("prefilled"):
+        # the uploader also builds and uploads the next upstream commit, then the upstream is
+        # rewound: the downloader will predict the old commit and find the new one
+        c1 = subprocess.run(["git", "rev-parse", "HEAD"], cwd=work, env=env, stdout=subprocess.PIPE).stdout.decode().strip()
+        _upstream_moves(arg)
+        c2 = subprocess.run(["git", "rev-parse", "HEAD"], cwd=work, env=env, stdout=subprocess.PIPE).stdout.decode().strip()
+        r = buildsim.bob(pa, ["dev", "--upload", "--download", "no", "root"], {"sched_seed": 2})
+        if r.rc != 0:
+            raise common.HarnessError("second uploader build failed: " + r.output[-400:])
+        if len(set(_artifacts(arch)) - old_arts) < 3:
+            raise common.HarnessError("second uploader build did not upload the new commit's artifacts")
+        git(work, "push", "-q", "-f", "origin", "%s:master" % c1)
+        arg["push_existing"] = c2
     # remove selected artifacts so that the downloader has to build (and check out) something
-    for art in _artifacts(arch):
+    for art in sorted(old_arts):
         try:
             with tarfile.open(art, "r:gz") as tf:
                 meta = json.loads(gzip.decompress(tf.extractfile("meta/audit.json.gz").read()))["artifact"]["meta"]
@@ -163,7 +195,6 @@ def _run_live(case, top, stats, log):
             os.unlink(art)
             stats.inc("live_artifacts_dropped")
     cfg = {"sched_seed": case["seed"], "durations": [0, 0.001, 1]}
-    arg = {"work": work, "salt": case["salt"]}
     if case["move"] == "before":
         _upstream_moves(arg)
     elif case["move"] == "after-lsremote":
@@ -188,6 +219,15 @@ def _run_live(case, top, stats, log):
             stats.inc("probe_forced_download_legitimately_failed")
             return None
         return {"kind": "download-build-failed", "detail": "live scenario %s: rc=%d %s" % (log[-1], r.rc, r.output[-900:])}
+    if case.get("prefilled"):
+        stats.inc("live_prefilled_cases")
+        ran = [sc for lab, sc in buildsim.step_scripts(r) if lab in ("build", "dist")]
+        if restarted and ran:
+            return {"kind": "built-although-artifact-available",
+                    "detail": "live-build-id scenario: the archive holds every artifact of the commit that was really checked out, "
+                              "but after the restart (wrong prediction) the downloader executed %s instead of downloading" % sorted(ran)}
+        if restarted:
+            stats.inc("probe_downloaded_everything_after_restart")
     # local clean build at the upstream state that the downloader ended up with
     pc = os.path.join(top, "clean", "proj")
     mk(pc)
@@ -210,9 +250,12 @@ def _run_live(case, top, stats, log):
     rc_ = buildsim.bob(pc, ["dev", "--download", "no", "root"], {"durations": [0]})
     if rc_.rc != 0:
         raise common.HarnessError("clean live build failed: " + rc_.output[-400:])
-    a = buildsim.results_of(pb, buildsim.dist_map(pb, True))
+    info = bobq.query(pb, want=("detail", "bid"))
+    visited = buildsim.visited_workspaces(info)
+    a = buildsim.results_of(pb, info)
     b = buildsim.results_of(pc, buildsim.dist_map(pc, True))
-    a = {k: v for k, v in a.items() if v is not None}
+    # (below a downloaded package nothing is built or checked: stale directories may remain there)
+    a = {k: v for k, v in a.items() if v is not None and info[k]["steps"]["dist"]["ws"] in visited}
     diffs = buildsim.compare(a, {k: v for k, v in b.items() if k in a})
     if diffs or "root" not in a:
         return {"kind": "downloaded-result-differs-from-local-build",
